@@ -12,7 +12,7 @@ src = mirror.apply_cfg(raw, mirror.ALL_FEATURES, log, m, drop_test_only=True)
 src = desugar.apply(m, src, log)
 p = os.path.join(mirror.VERIF, 'annot', m + '.rs')
 old = open(p).read()
-lines, ident = mirror.splice(src, old, m + '.rs', log)
+lines, ident, _chg = mirror.splice(src, old, m + '.rs', log)
 out = [('//@ ' + t if t.strip() else '//@') if org[0] == 'ann' else t for (org, t) in lines]
 open(p, 'w').write('\n'.join(out))
 print('identical baseline' if ident else 're-anchored', m)
